@@ -50,6 +50,7 @@ func runC10(rep *TReport, raw json.RawMessage) {
 			Kind, Method string
 			Public       bool
 			Rotated      int
+			Nosecret     bool
 		}
 		Transport, Secret, Endpoint string
 		Known                       bool
@@ -71,6 +72,9 @@ func runC10(rep *TReport, raw json.RawMessage) {
 	base := newClient("X", r.Reg.Public)
 	base.RedirectURIs = []string{"https://x.example/cb"}
 	base.Secret = c10Hash(c10Secrets["current"])
+	if r.Reg.Nosecret {
+		base.Secret = nil
+	}
 	if r.Reg.Rotated > 0 {
 		base.RotatedSecrets = [][]byte{c10Hash(c10Secrets["rotated"]), c10Hash(c10Secrets["rotated2"])}
 	}
